@@ -375,10 +375,45 @@ def _rest(ctx, P):
             ctx.violation("C16-R5", "anchor-missing:TokTrie literal in " + nm, "TokTrie struct literal not found in TokTrie::%s" % nm)
             continue
         fm = it[2]
+        # which variable ends up in which field — by what happened to the variable, not by its name
+        def var_of(o):
+            pl = F.op_place(o)
+            l = pl[0] if pl else None
+            for _ in range(6):
+                ds = b.defs().get(l, []) if l is not None else []
+                if l is None or b.locals[l].get("n") or len(ds) != 1 or ds[0][2] != "assign" or ds[0][3]["rv"] != "use":
+                    break
+                nx = F.op_place(ds[0][3]["o"])
+                if not nx:
+                    break
+                l = nx[0]
+            return l
+
+        def receivers(pred):
+            out = set()
+            for bi_, t_ in b.calls():
+                if pred(t_["f"].get("def", ""), t_):
+                    for a_ in t_["args"][:2]:
+                        e_ = b.expr(a_)
+                        l_ = L.root_local(b, e_)
+                        if l_ is not None:
+                            out.add(l_)
+            return out
+        produced = {
+            "token_offsets": receivers(lambda d, t_: d.endswith("Vec::<T, A>::push") and "TokDesc" in "".join(t_["aty"])),
+            "token_data": receivers(lambda d, t_: d.endswith("::extend_from_slice")),
+            "nodes": receivers(lambda d, t_: d == T + "TrieBuilder::serialize"),
+            "max_token_len": {l_ for l_, ds_ in b.defs().items() if any(
+                (k_ == "call" and p_["f"].get("def", "").startswith("core::cmp::max")) or
+                (k_ == "assign" and p_["rv"] == "use" and (lambda e_: e_[0] == "call" and e_[1].startswith("core::cmp::max"))(b.expr(p_["o"])))
+                for (_, _, k_, p_) in ds_)},
+        }
         for fld in ("token_offsets", "token_data", "nodes", "max_token_len"):
-            src = L.named_source(b, fm[fld])
-            ctx.check(src == fld, "C16-R5", "%s:field:%s" % (nm, fld), "field %s from local %s" % (fld, src),
-                      "TokTrie::%s initialises %s from `%s`" % (nm, fld, src), site=b.where(it[1]))
+            v = var_of(fm[fld])
+            ctx.check(v is not None and v in produced[fld], "C16-R5", "%s:field:%s" % (nm, fld),
+                      "field %s is the value built for it (%s)" % (fld, {"token_offsets": "receives the TokDesc pushes", "token_data": "receives the byte appends",
+                                                                          "nodes": "filled by serialize", "max_token_len": "running max"}[fld]),
+                      "TokTrie::%s initialises %s from a value that is not the one built for it" % (nm, fld), site=b.where(it[1]))
     if fl.id in inits:
         fm = inits[fl.id][2]
         for fld in ("eos_tokens", "sorted_vocab", "info"):
